@@ -90,7 +90,7 @@ func modelBool(model map[string]string, key string) (bool, bool) {
 
 func init() {
 	replayDrivers["validation.ValidateLimit"] = func(o *Obligation, m map[string]string) (string, string, bool) {
-		lim, ok := modelInt(m, "p.limit")
+		lim, ok := modelInt(m, "arg.limit")
 		if !ok {
 			return "", "", false
 		}
@@ -112,8 +112,8 @@ func TestZZReplay(t *testing.T) {
 		return "internal/validation", src, true
 	}
 	replayDrivers["(*history.SearchHistory).AddEntry"] = func(o *Obligation, m map[string]string) (string, string, bool) {
-		max, ok1 := modelInt(m, "(T.history.SearchHistory.MaxSize (select H.history.SearchHistory@0 p.sh))")
-		n, ok2 := modelInt(m, "(sl.len (T.history.SearchHistory.Entries (select H.history.SearchHistory@0 p.sh)))")
+		max, ok1 := modelInt(m, "(T.history.SearchHistory.MaxSize (select H.history.SearchHistory@0 arg.sh))")
+		n, ok2 := modelInt(m, "(sl.len (T.history.SearchHistory.Entries (select H.history.SearchHistory@0 arg.sh)))")
 		if !ok1 || !ok2 || n < 0 || n > 100000 {
 			return "", "", false
 		}
